@@ -63,7 +63,7 @@ func c15(run *ev.Run, tier string) {
 			s.Prerelease = rng.Pick(r, []string{"beta1", "rc.1", "alpha-2", "pre.3-x"})
 		}
 		if r.P(1, 2) {
-			s.VersionMetadata = rng.Pick(r, []string{"git", "build5", "20200101", "p1"})
+			s.VersionMetadata = rng.Pick(r, []string{"git", "build5", "20200101", "p1", "git-abc123", "b-5"})
 		}
 		if r.P(1, 2) {
 			s.Release = rng.Pick(r, []string{"1", "2", "17", "r3", "03", "007", "+2", "1.5", "0"})
@@ -73,6 +73,14 @@ func c15(run *ev.Run, tier string) {
 		}
 		if r.P(1, 5) {
 			s.Version = "v" + s.Version // the schema strips the prefix
+		}
+		if r.P(1, 8) {
+			s.Version = fmt.Sprintf("%d.%d.%d+build-%d", r.Intn(20), r.Intn(20), r.Intn(20), r.Intn(9)) // hyphen inside semver build metadata
+			s.VersionMetadata = ""
+		}
+		if r.P(1, 10) {
+			s.VersionSchema = "none"
+			s.Version = rng.Pick(r, []string{"2024-01-15", "1.2-3", "r12-g1a2b3c"})
 		}
 		if r.P(1, 6) {
 			s.Deb.Arch, s.RPM.Arch, s.APK.Arch, s.IPK.Arch, s.ArchL.Arch = "debarch", "rpmarch", "apkarch", "ipkarch", "archarch"
